@@ -9,7 +9,7 @@ DIR="$1"
 rm -rf "$DIR/verif"
 mkdir -p "$DIR"
 if [ ! -d "$DIR/repo" ]; then git -C /repo worktree add --detach "$DIR/repo" HEAD >/dev/null; fi
-rsync -a --exclude .git --exclude .build/run --exclude evidence/replay /verif/ "$DIR/verif/"
+rsync -a --exclude .git --exclude .build/run --exclude evidence/replay /verif/ "$DIR/verif/" || true
 sed -i "s#path = \"/repo\"#path = \"$DIR/repo\"#" "$DIR/verif/harness/Cargo.toml"
 sed -i "s#/verif/.build/target#$DIR/verif/.build/target#" "$DIR/verif/harness/.cargo/config.toml"
 sed -i "s#^REPO = \"/repo\"#REPO = \"$DIR/repo\"#" "$DIR/verif/tools/extract.py"
